@@ -243,10 +243,14 @@ func vC43_consumerStep(kind int) {
 		}
 	}
 	x.confirmedSeq = vNondetInt64("confirmedSeq")
-	vAssume(x.confirmedSeq >= 0 && x.confirmedSeq < 1<<62)
+	vAssume(x.confirmedSeq >= 0 && x.confirmedSeq < 1000)
 	x.expectedSeq = x.confirmedSeq + 1
 	x.requestUpToSeq = vNondetInt64("requestUpToSeq")
 	nbuf := vCase("bufLen")
+	if vCase("spareCap") == 1 {
+		// spare capacity: slices.Insert shifts in place; otherwise it reallocates (both are the library's business)
+		x.buffer = make([]*commands.SequencedMessage, 0, 6)
+	}
 	for i := 0; i < nbuf; i++ {
 		off := vNondetInt64("bufOffset")
 		vAssume(off >= 1 && off <= 4)
